@@ -167,6 +167,7 @@ static void setup_inputs(void) {
 			gt_rand(GT[i]);
 		}
 	}
+	memset(msg, 0, sizeof(msg));
 	msg_len = 1 + (B[5]->dp[0] % 200);
 	rand_bytes(msg, msg_len);
 	bn_free(n);
@@ -806,7 +807,14 @@ static int set_curve(const char *name) {
 	has_pc = pc;
 	cur_curve = id;
 	(void)err_get_code();
-	/* keys that live on the curve */
+	/* keys that live on the curve: drawn from a fixed generator state, so that they do not depend on
+	 * what this executor ran before */
+	{
+		uint8_t ks[16];
+		memset(ks, 0x4B, sizeof(ks));
+		ks[0] = (uint8_t)id;
+		sim_reseed_fresh(ks, sizeof(ks));
+	}
 	cp_ecdsa_gen(ec_d, ec_q);
 	if (has_pc) cp_bls_gen(bls_d, bls_q);
 	probe_ref_len = usability_probe(probe_ref);
@@ -838,6 +846,11 @@ static void engine_boot(void) {
  * sanitizer abort should cost as little as possible). */
 static void need_keys(void) {
 	if (have_keys) return;
+	{
+		uint8_t ks[16];
+		memset(ks, 0x52, sizeof(ks));
+		sim_reseed_fresh(ks, sizeof(ks));
+	}
 	if (cp_rsa_gen(rsa_pub, rsa_prv, 768) != RLC_OK) _exit(6);
 	if (cp_phpe_gen(ph_pub, ph_prv, 512) != RLC_OK) _exit(7);
 	have_keys = 1;
